@@ -1,0 +1,99 @@
+// Copyright 2025 Versity Software
+// This file is licensed under the Apache License, Version 2.0
+// (the "License"); you may not use this file except in compliance
+// with the License.  You may obtain a copy of the License at
+//
+//   http://www.apache.org/licenses/LICENSE-2.0
+//
+// Unless required by applicable law or agreed to in writing,
+// software distributed under the License is distributed on an
+// "AS IS" BASIS, WITHOUT WARRANTIES OR CONDITIONS OF ANY
+// KIND, either express or implied.  See the License for the
+// specific language governing permissions and limitations
+// under the License.
+
+//go:build verif
+
+// Package verifhook marks the steps of multi-step storage updates for
+// verification harnesses (build tag "verif").
+//
+// A harness that links the gateway into its own process installs a handler
+// with SetHandler and decides there how long each step waits (schedule
+// exploration). A gateway process started with VERIF_HOOK_DIR=<dir> is
+// controlled through files instead (crash injection):
+//
+//	<dir>/arm   "<generation> <n>": written by the harness. While it
+//	            exists every hook hit is counted (the count restarts when
+//	            the generation changes) and appended to <dir>/log; when
+//	            the count reaches n (n > 0) the process kills itself with
+//	            SIGKILL at that step.
+//
+// Without a handler and without VERIF_HOOK_DIR a hook returns immediately.
+package verifhook
+
+import (
+	"fmt"
+	"os"
+	"path/filepath"
+	"strconv"
+	"strings"
+	"sync"
+	"sync/atomic"
+	"syscall"
+)
+
+var handler atomic.Value // of func(point string, args []string)
+
+// SetHandler installs (or, with nil, removes) the in-process handler.
+func SetHandler(f func(point string, args []string)) {
+	if f == nil {
+		f = func(string, []string) {}
+	}
+	handler.Store(f)
+}
+
+var (
+	dir   = os.Getenv("VERIF_HOOK_DIR")
+	mu    sync.Mutex
+	gen   string
+	count int
+)
+
+// At marks a step of a storage update.
+func At(point string, args ...string) {
+	if h, ok := handler.Load().(func(string, []string)); ok {
+		h(point, args)
+		return
+	}
+	if dir == "" {
+		return
+	}
+	b, err := os.ReadFile(filepath.Join(dir, "arm"))
+	if err != nil {
+		return
+	}
+	f := strings.Fields(string(b))
+	if len(f) < 2 {
+		return
+	}
+	n, _ := strconv.Atoi(f[1])
+	mu.Lock()
+	defer mu.Unlock()
+	if f[0] != gen {
+		gen, count = f[0], 0
+	}
+	count++
+	kill := n > 0 && count == n
+	line := fmt.Sprintf("%s %d %s %s", gen, count, point, strings.Join(args, "\t"))
+	if kill {
+		line += "\tKILL"
+	}
+	if lf, err := os.OpenFile(filepath.Join(dir, "log"), os.O_WRONLY|os.O_APPEND|os.O_CREATE, 0o644); err == nil {
+		lf.WriteString(line + "\n")
+		lf.Close()
+	}
+	if kill {
+		syscall.Kill(os.Getpid(), syscall.SIGKILL)
+		select {}
+	}
+}
